@@ -852,12 +852,14 @@ Qed.
 
 Lemma w_valid j : (S j < 4)%nat -> ~ ivl_invalid_spec 432000 w_sec w_vals j.
 Proof.
-  intros Hj Hinv. unfold VAR2H_INVALID_EPS_R in *.
-  do 3 (destruct j as [|j];
-        [ destruct Hinv as [H|[H|[(x & E & L)|[(x & E & L)|H]]]];
-          unfold vval, tsec in *; simpl in *;
-          try discriminate; try (injection E as <-; lra); lia |]).
-  lia.
+  intros Hj Hinv.
+  assert (j = 0 \/ j = 1 \/ j = 2)%nat as Hc by lia.
+  destruct Hinv as [H|[H|[(x & E & L)|[(x & E & L)|H]]]];
+    destruct Hc as [ -> | [ -> | -> ] ];
+    unfold vval, tsec, w_vals, w_sec in *; cbn [nth] in *;
+    try discriminate;
+    try (inversion E; subst x; unfold VAR2H_INVALID_EPS_R in L; lra);
+    lia.
 Qed.
 
 Lemma old_kernel_partial_period_refuted :
@@ -871,12 +873,124 @@ Proof.
   destruct (kernel_period false 1800 0 432000 3600 w_sec w_vals w_hinit w_pre out 2 Hrun
               ltac:(simpl; lia)) as (k & Hb & Hn).
   rewrite Hn.
-  destruct (hval_cases false 1800 0 432000 3600 w_sec w_vals (proj1 w_pre) ltac:(lia) _ _ Hb)
+  destruct (hval_cases false 1800 0 432000 3600 w_sec w_vals (proj1 w_pre) _ _ Hb)
     as [Hnone|Hsome].
   - exfalso.
-    apply (hval_none_iff false 1800 0 432000 3600 w_sec w_vals (proj1 w_pre) ltac:(lia) _ _ Hb) in Hnone.
+    apply (hval_none_iff false 1800 0 432000 3600 w_sec w_vals (proj1 w_pre) _ _ Hb) in Hnone.
     destruct Hnone as [[Hc _]|(j & _ & Hj & _ & Hi)]; [discriminate|].
     apply ivl_invalid_iff in Hi. now apply (w_valid j Hj).
   - rewrite Hsome. f_equal.
-    unfold area, psum, pc, piece, rv, vval, tsec, pstart, pend; simpl. lra.
+    unfold area, psum, pc, piece, rv, vval, tsec, pstart, pend; simpl.
+    change (Z.min 7800 9000) with 7800%Z. change (Z.max 7200 7200) with 7200%Z. field.
 Qed.
+
+Ltac zminmax :=
+  repeat match goal with
+  | |- context [Z.min ?a ?b] => let v := eval vm_compute in (Z.min a b) in change (Z.min a b) with v
+  | |- context [Z.max ?a ?b] => let v := eval vm_compute in (Z.max a b) in change (Z.max a b) with v
+  end.
+
+(* the same series through the repaired kernel: the first two periods are the
+   level 3, the period that extends past the data is missing, and the two
+   values times P add up to the area over both periods *)
+Lemma fixed_kernel_example :
+  exists out,
+    c_var2h_RN true 1800 0 432000 3600 w_sec w_vals w_hinit = VOk out /\
+    nth 0 out None = Some 3 /\ nth 1 out None = Some 3 /\ nth 2 out None = None /\
+    osum out 0 2 * 1800 = area 1800 0 w_sec w_vals 3600 7200.
+Proof.
+  destruct (kernel_ok true 1800 0 432000 3600 w_sec w_vals w_hinit w_pre) as (out & Hrun & _).
+  assert (H0 : nth 0 out None = Some 3).
+  { rewrite (present_if_valid true 1800 0 432000 3600 w_sec w_vals w_hinit w_pre out 0 Hrun).
+    + f_equal. unfold area, psum, pc, piece, rv, vval, tsec, pstart, pend; simpl. zminmax. field.
+    + simpl; lia.
+    + unfold tsec, pend; simpl; lia.
+    + intros j Hj _ _. now apply w_valid. }
+  assert (H1 : nth 1 out None = Some 3).
+  { rewrite (present_if_valid true 1800 0 432000 3600 w_sec w_vals w_hinit w_pre out 1 Hrun).
+    + f_equal. unfold area, psum, pc, piece, rv, vval, tsec, pstart, pend; simpl. zminmax. field.
+    + simpl; lia.
+    + unfold tsec, pend; simpl; lia.
+    + intros j Hj _ _. now apply w_valid. }
+  exists out. split; [exact Hrun|]. split; [exact H0|]. split; [exact H1|]. split.
+  - apply (uncovered_missing true 1800 0 432000 3600 w_sec w_vals w_hinit w_pre out 2 eq_refl Hrun).
+    + simpl; lia.
+    + unfold tsec, pend; simpl; lia.
+  - apply (conservation true 1800 0 432000 3600 w_sec w_vals w_hinit w_pre out 0 2 Hrun).
+    + simpl; lia.
+    + intros i Hi. assert (i = 0 \/ i = 1)%nat as [-> | ->] by lia; congruence.
+Qed.
+
+(* ------------------------------------------------------------------ *)
+(* any arithmetic instance (binary64 included): the fuel of the walk is never
+   exhausted; the only way to the undefined behaviour [VUndef] is the
+   positioning loop running past the end, i.e. no stamp later than the
+   origin (the memory-safety contract of the kernel, property C05) *)
+
+Section NoFuel.
+Context {T : Type} (N : NumOps T).
+Variables (ie oe : T) (ec : bool).
+Variables (P rainfall maxgap hstart : Z) (sec : list Z) (vals : list T).
+Local Notation n := (length sec).
+
+Lemma walk_progress fuel Pd s e k t1 v1 hv miss :
+  (S k < n)%nat -> (n - S k <= fuel)%nat ->
+  match walk N ie oe ec rainfall maxgap sec vals fuel Pd s e k t1 v1 hv miss with
+  | WFuel => False
+  | WDone k' _ _ => (k <= k' < n)%nat
+  | WErr => True
+  end.
+Proof.
+  revert k t1 v1 hv miss; induction fuel as [|f IH]; intros k t1 v1 hv miss Hk Hf; [lia|].
+  cbn [walk]. destruct (nltb N t1 e); [|lia].
+  destruct (nltb N (nofZ N (tsec sec (S k))) t1); [exact I|].
+  destruct (Nat.leb_spec n (S (S k))); [lia|].
+  match goal with |- match ?w with _ => _ end =>
+    assert (Hw : match w with WFuel => False | WDone k' _ _ => (S k <= k' < n)%nat | WErr => True end)
+      by (apply IH; lia); destruct w; auto; lia end.
+Qed.
+
+Lemma periods_no_fuel cnt i k : (S k < n)%nat ->
+  periods N ie oe ec P rainfall maxgap hstart sec vals cnt i k <> PFuel.
+Proof.
+  revert i k; induction cnt as [|c IH]; intros i k Hk; cbn [periods]; [discriminate|].
+  match goal with |- context [walk N ie oe ec rainfall maxgap sec vals n ?Pd ?s ?e k ?t1 ?v1 ?hv ?m] =>
+    pose proof (walk_progress n Pd s e k t1 v1 hv m Hk ltac:(lia)) as Hw;
+    destruct (walk N ie oe ec rainfall maxgap sec vals n Pd s e k t1 v1 hv m) as [| |k' hv' miss']
+  end; [discriminate | contradiction |].
+  specialize (IH (i + 1)%Z (pred k') ltac:(lia)).
+  destruct (periods N ie oe ec P rainfall maxgap hstart sec vals c (i + 1) (pred k'));
+    [discriminate | contradiction | discriminate].
+Qed.
+
+Lemma undef_only_without_stamp_after_origin hinit :
+  c_var2h N ie oe ec P rainfall maxgap hstart sec vals hinit = VUndef ->
+  forall k, (k < n)%nat -> (tsec sec k <= hstart)%Z.
+Proof.
+  unfold c_var2h. intros H.
+  destruct ((rainfall <? 0)%Z || (1 <? rainfall)%Z); [discriminate|].
+  destruct (negb (existsb (Z.eqb P) VAR2H_C_PERIODS)); [discriminate|].
+  destruct (position sec hstart) as [[|v]|] eqn:E; [discriminate| |now apply position_none].
+  exfalso. destruct (position_spec sec hstart (S v) E) as (Hv & _).
+  pose proof (periods_no_fuel (length hinit - 1) 0 v Hv).
+  destruct (periods N ie oe ec P rainfall maxgap hstart sec vals (length hinit - 1) 0 v);
+    [discriminate | contradiction | discriminate].
+Qed.
+
+End NoFuel.
+
+(* the error branch of the walk (any instance): an interval that goes
+   backwards, met while the period is not finished, ends the kernel with an
+   error code; the error propagates through the loop over the periods *)
+Lemma walk_backwards_err {T} (N : NumOps T) ie oe ec rainfall maxgap sec vals
+      fuel Pd s e k t1 v1 hv miss :
+  nltb N t1 e = true -> nltb N (nofZ N (tsec sec (S k))) t1 = true ->
+  walk N ie oe ec rainfall maxgap sec vals (S fuel) Pd s e k t1 v1 hv miss = WErr.
+Proof. intros H1 H2. cbn [walk]. now rewrite H1, H2. Qed.
+
+Lemma periods_err_propagates {T} (N : NumOps T) ie oe ec P rainfall maxgap hstart sec vals c i k :
+  walk N ie oe ec rainfall maxgap sec vals (length sec) (nofZ N P)
+       (nofZ N (hstart + i * P)) (nadd N (nofZ N (hstart + i * P)) (nofZ N P))
+       k (nofZ N (tsec sec k)) (vval N vals k) (n0 N) false = WErr ->
+  periods N ie oe ec P rainfall maxgap hstart sec vals (S c) i k = PErr.
+Proof. intros H. cbn [periods]. now rewrite H. Qed.
